@@ -71,6 +71,27 @@ class VariableComputationNode(ComputationNode):
                 return l.target
         return None
 
+    def _simple_repr(self):
+        # Order links are added by the graph once the node is built: they are
+        # not constructor arguments and must be kept explicitly.
+        r = super()._simple_repr()
+        r["order_links"] = simple_repr(
+            [l for l in self.links if l.type in ("previous", "next")]
+        )
+        return r
+
+    @classmethod
+    def _from_repr(cls, r):
+        order_links = from_repr(r["order_links"])
+        args = {
+            k: from_repr(v)
+            for k, v in r.items()
+            if k not in ["__qualname__", "__module__", "order_links"]
+        }
+        node = cls(**args)
+        node.links.extend(order_links)
+        return node
+
     def __eq__(self, other):
         if type(other) != VariableComputationNode:
             return False
